@@ -5,7 +5,17 @@ SPEC = {
     'claimed': True,
     'theorems': ['C16_decode_encode', 'C16_encode_injective', 'C16_hash_ignores_sig_and_header', 'C16_hash_binds',
                  'C16_fullhash_binds', 'C16_clone_preserves_hash_fullhash', 'C16_sign_then_verify',
-                 'C16_altered_fails_partial', 'C16_altered_fails_refuted', 'C16_disabled_fails', 'C16_unsigned_fails'],
+                 'C16_altered_fails_partial', 'C16_altered_fails_refuted', 'C16_disabled_fails', 'C16_unsigned_fails',
+                 # extension: unknown protobuf fields
+                 'C16_hash_ignores_unknown_fields', 'C16_checksign_ignores_unknown_fields', 'C16_clone_drops_unknown_fields',
+                 'C16_clone_same_encoding_iff', 'C16_hash_binds_message_refuted', 'C16_hash_binds_message_partial',
+                 'C16_sign_then_verify_message_refuted', 'C16_sign_then_verify_message_partial',
+                 'C16_sign_then_verify_message_exact',
+                 # extension: Signature.ty / sender
+                 'C16_ty_only_selects_driver', 'C16_sender_bound_refuted', 'C16_sender_bound_partial',
+                 # extension: secp256k1eth note mode
+                 'C16_eth_same_action_same_verdict', 'C16_eth_unbound_outer_fields', 'C16_eth_accepted_binds',
+                 'C16_eth_altered_fails_refuted'],
     'allowed_axioms': [],
     'shard': 200,
     'rule': 'schema of Transaction/Signature by reflection (1 case); encodings of generated transactions (every field '
@@ -19,6 +29,25 @@ SPEC = {
             '(un)compressed, hybrid), signature alterations (flip, truncate, append, zero, ECDSA (r,n-s), r+n, s+n, '
             'n-r, DER padding / long-form length, CertSignature wrappers, ed25519 S+L, S+2L, R sign bit, eth v/s variants), '
             'type alterations (every other driver, address-id bits, bits 15/30/31, 0, unknown) and removal of the signature. '
+            'Extension streams (default registry and the per-driver-height configuration): wire-* = the canonical encoding of '
+            'a signed transaction (6 driver slots in turn) with unknown fields appended / prepended / inserted at a field '
+            'boundary (varint incl. over-long value and key encodings, length-delimited, fixed32/64, empty and nested groups, '
+            'numbers 12..2^29-1), declared numbers with another wire type, declared fields repeated (same / other / explicit '
+            'default value, int32 truncation, a second Signature occurrence with ty only / an unknown field / empty body), '
+            'fields shuffled, malformed input (stray end group, number 0 / 2^29, varint overflow, length beyond the end, '
+            'reserved wire types, invalid UTF-8 in to, mismatched group end, truncation) - decoded by types.Decode, observed: '
+            'declared fields, unknown bytes of Transaction and Signature, Encode, Encode(Clone), Encode(CloneTx), Hash / FullHash '
+            'against the stripped message, CheckSign; resign = such a message signed again through a key wrapper that records '
+            'the bytes Sign hands to the key, then CheckSign; from-* = per driver, honest types with address id 0..7, then ty '
+            'with every other address id, bits 30 / 31 / 15 / 16, another driver, negative height: CheckSign and From() '
+            '(string or panic); action* = secp256k1eth/types.DecodeTxAction on encoded transactions (execers with / without '
+            '"evm", EVM actions with every note spelling, coins actions with merged / replaced oneof members, invalid UTF-8, '
+            'unknown / repeated / malformed fields); eth-* = Ethereum transactions (legacy transfer / call / create, dynamic-fee, '
+            'access-list) signed with a fresh key and wrapped as rpc/ethrpc AssembleChain33Tx does, CheckSign unchanged at 4 '
+            'heights, after every outer field alteration, after payload alterations (gasLimit, gasPrice, alias, amount, para, '
+            'contractAddr, code, note empty / 0x / 0X / upper / tail / odd / bit flip / other inner (v,r,s), unknown and repeated '
+            'payload fields, garbage), signature flip / key truncation / removal, and transactions signed by Transaction.Sign '
+            'with a secp256k1eth key (coins transfer and EVM action, with and without note). '
             'non-trivial = encoding non-empty / pair / verify case where something was altered or verification succeeded; '
             'distinct = distinct Gallina case terms',
     'trusted_base': [
@@ -29,14 +58,25 @@ SPEC = {
         'says are signed) as an oracle and compares CheckSign against gate(model) && that verdict',
         'golang/protobuf deterministic Marshal is the oracle for the wire encoding on the implementation side; crypto/sha256 '
         '(Go stdlib) recomputes Hash/FullHash from the encoded bytes',
+        'extension: google.golang.org/protobuf Unmarshal is modelled (ProtoUnknown.v / ModelUnknown.v: tag and value consumption, '
+        'unknown-field retention, last-wins, message merge, UTF-8 validation) and compared case by case; its recursion limit of '
+        '10000 nested groups is not modelled',
+        'extension (secp256k1eth): go-ethereum (UnmarshalBinary, LondonSigner.Hash, Keccak-256, Ecrecover, VerifySignature) and '
+        'address.ExecAddress are oracles: the harness hands the parsed Ethereum transaction (chain id, nonce, value, data, to), '
+        'ExecAddress(execer) and the two inner verdicts (over Keccak(msg) / over the signing hash) to the model, which decides '
+        'which one VerifyBytes uses and which cross-checks apply; DecodeTxAction itself is modelled and compared directly',
+        'extension (From): which address ids have a driver that derives an address from a public key is probed by the harness '
+        '(address.PubKeyToAddr under recover) and given to the model; address strings are compared for equality only',
     ],
     'assumptions': [
         'no executor-specific crypto driver override (ExecutorType.GetCryptoDriver returns ErrNotSupport, the ExecTypeBase default)',
         'Transaction.To is valid UTF-8 (proto.Marshal rejects other strings and types.Encode panics)',
-        'transactions carry no unknown protobuf fields (CloneTx drops them; Sign would sign them)',
+        'C16_eth_* theorems carry the boolean guard decodes_plainb (the signed bytes decode back to the declared fields); the '
+        'correspondence check evaluates the general decoder on every eth / wire case',
         'negative block heights bypass the enable check (crypto.WithLoadOptionEnableCheck) - modelled, outside the spec oracle',
-        'Signature.Ty bits outside CryptoIDMask 0x3fff8fff (address id bits 12-14, bits 30-31) do not select the driver: a changed '
-        'ty that still names an enabled driver is modelled but not judged by the spec oracle (ty is not in the property text)',
+        'Signature.Ty bits outside CryptoIDMask 0x3fff8fff (address id bits 12-14, bits 30-31) do not select the driver: in the '
+        'original CVerify stream a changed ty that still names an enabled driver is not judged; the CFrom stream judges it (a '
+        'changed ty naming the same driver must fail: finding 10; an accepted transaction must have a sender: finding 11)',
     ],
     'manifest': {
         'level_text': 'partial: encoding injectivity, hash/fullhash/clone clauses proved unbounded for the model (SHA-256 assumed '
